@@ -155,21 +155,49 @@ Theorem C02_metadata_oneway_subset : forall (is_private : text -> bool) s,
 Proof. exact meta_oneway_methods. Qed.
 Print Assumptions C02_metadata_oneway_subset.
 
-(* Several classes (possibly carrying the same name) and several registered objects in one daemon: after
-   ANY sequence of get_metadata calls, every answer is the member list of the class of the object that
-   was asked about — provided the cache key distinguishes classes (injective).  The current source keys
-   the cache by the class object (generated fact, next theorem), which the model renders as the identity. *)
+(* Several classes (possibly carrying the same name) and several registered objects in one daemon: after ANY
+   sequence of get_metadata calls, every answer that is given is the member list of the class of the object that was
+   asked about — a function of the class only, never a partially filled list — also when a scan is aborted because a
+   class attribute raises while it is inspected (then there is no answer and nothing is remembered; a later call scans
+   again) and when get_metadata is re-entered from inside a running scan; provided the cache key distinguishes classes.
+   Without raising attributes every call is answered.  The source keys the cache by the class object and fills it only
+   after the scan has completed (generated facts, third theorem). *)
 Theorem C02_metadata_history_exact : forall (is_private : text -> bool) key classes objs hist,
   injective key ->
-  run_metadata is_private key classes [] (map (class_of objs) hist) =
-  map (fun o => meta_of is_private (shape_of classes objs o)) hist.
+  Forall2 (fun o a => match a with Some md => md = meta_of is_private (shape_of classes objs o) | None => True end)
+          hist (run_metadata is_private key classes ms_empty (map (class_of objs) hist)).
 Proof. exact metadata_history_exact. Qed.
 Print Assumptions C02_metadata_history_exact.
 
+Theorem C02_metadata_history_answered : forall (is_private : text -> bool) key classes objs hist,
+  injective key -> no_raisers classes ->
+  run_metadata is_private key classes ms_empty (map (class_of objs) hist) =
+  map (fun o => Some (meta_of is_private (shape_of classes objs o))) hist.
+Proof. exact metadata_history_answered. Qed.
+Print Assumptions C02_metadata_history_answered.
+
 Theorem C02_metadata_cache_keyed_by_class :
-  metadata_cache_keyed_by_class = true /\ injective (fun k : nat => k).
-Proof. exact (conj cache_keyed_by_class id_injective). Qed.
+  metadata_cache_keyed_by_class = true /\ metadata_cache_stored_after_scan = true /\ injective (fun k : nat => k).
+Proof. exact (conj cache_keyed_by_class (conj cache_stored_after_scan id_injective)). Qed.
 Print Assumptions C02_metadata_cache_keyed_by_class.
+
+(* A property accessor runs only under the first-accessor rule: the property's deciding accessor function (getter, else
+   setter, else deleter) carries an explicit mark — put there for this property, or because that very function is exposed
+   in its own right — or the defining class is exposed.  A mark on a LATER accessor (e.g. a setter that is also an
+   exposed method, or an accessor taken over from an exposed base property) never makes the property readable, writable
+   or advertised (seeded change C02_8 on its witness). *)
+Theorem C02_property_first_accessor_rule : forall (is_private : text -> bool) q s r m a,
+  repaired q -> In (m, a) (fst (serve is_private q s r)) -> a = AGet \/ a = ASet -> exposed_by_rule is_private s m.
+Proof. exact accessor_rule. Qed.
+Print Assumptions C02_property_first_accessor_rule.
+
+Theorem C02_later_accessor_mark_not_enough :
+  serve is_private_attribute quirks_asis w8_shape (mkreq RGet false [NStr (m_name w_target)]) = ([], RepError) /\
+  serve is_private_attribute quirks_asis w8_shape (mkreq RSet false [NStr (m_name w_target)]) = ([], RepError) /\
+  meta_attrs is_private_attribute w8_shape = [] /\
+  ~ exposed_by_rule is_private_attribute w8_shape w_target.
+Proof. exact later_accessor_mark_not_enough. Qed.
+Print Assumptions C02_later_accessor_mark_not_enough.
 
 (* The predicate generated from is_private_attribute in the current source is exactly "reserved
    dunder name, or leading underscore and not of the form __x__ (longer than four characters)". *)
@@ -258,7 +286,7 @@ Example C02_nonvacuous_may_serve :
   may_serve is_private_attribute w3_shape RCall (m_name w_run) w_run ACall.
 Proof.
   unfold may_serve. split; [vm_compute; reflexivity|]. split; [vm_compute; reflexivity|].
-  split; [simpl; auto|]. right. split; [reflexivity|exact I].
+  split; [simpl; auto|]. right. left. split; [reflexivity|exact I].
 Qed.
 (* a property exposed only on its setter function while it has a getter: explicitly exposed in the property's sense,
    not by Pyro5's first-accessor rule — neither read, written nor advertised *)
@@ -268,14 +296,21 @@ Example C02_nonvacuous_setter_only :
   meta_attrs is_private_attribute w6_shape = [].
 Proof.
   split. { left. split; vm_compute; reflexivity. }
-  split. { unfold exposed_by_rule. simpl. intros [[H _]|[H _]]; discriminate. }
+  split. { unfold exposed_by_rule. simpl. intros [[H _]|[[H _]|H]]; discriminate. }
   vm_compute. split; reflexivity.
 Qed.
-(* the same two classes asked in both orders: each answer is its own class's list; keyed by name it is not *)
+(* the same two classes asked in both orders: each answer is its own class's list; keyed by name it is not.
+   A class attribute that raises once: first call unanswered, second call answered in full; always: never answered *)
 Example C02_nonvacuous_history :
-  run_metadata is_private_attribute (fun k => k) [w1_shape; w3_shape] [] (map (class_of [0; 1; 0]) [1; 0; 2; 1])
-    = [meta_of is_private_attribute w3_shape; meta_of is_private_attribute w1_shape;
-       meta_of is_private_attribute w1_shape; meta_of is_private_attribute w3_shape] /\
-  run_metadata is_private_attribute (fun _ => 0) [w1_shape; w3_shape] [] [1; 0] <>
-    [meta_of is_private_attribute w3_shape; meta_of is_private_attribute w1_shape].
-Proof. split. { vm_compute. reflexivity. } vm_compute. intros H. discriminate. Qed.
+  run_metadata is_private_attribute (fun k => k) [w1_shape; w3_shape] ms_empty (map (class_of [0; 1; 0]) [1; 0; 2; 1])
+    = [Some (meta_of is_private_attribute w3_shape); Some (meta_of is_private_attribute w1_shape);
+       Some (meta_of is_private_attribute w1_shape); Some (meta_of is_private_attribute w3_shape)] /\
+  run_metadata is_private_attribute (fun _ => 0) [w1_shape; w3_shape] ms_empty [1; 0] <>
+    [Some (meta_of is_private_attribute w3_shape); Some (meta_of is_private_attribute w1_shape)] /\
+  run_metadata is_private_attribute (fun k => k) [w9_shape ROnce; w9_shape RAlways] ms_empty [0; 0; 1; 1; 0]
+    = [None; Some (meta_of is_private_attribute (w9_shape ROnce)); None; None; Some (meta_of is_private_attribute (w9_shape ROnce))] /\
+  meta_methods is_private_attribute (w9_shape ROnce) = [m_name w_ping; m_name w_run].
+Proof.
+  split. { vm_compute. reflexivity. } split. { vm_compute. intros H. discriminate. }
+  split; vm_compute; reflexivity.
+Qed.
